@@ -710,44 +710,54 @@ def variant_table(tier):
     return v
 
 
-def build_states(b, env, outdir, tier, seed, only=None):
-    """Build every state; returns (states, skipped) -- skipped = [(id, reason)] for recipes that do not apply."""
-    os.makedirs(outdir, exist_ok=True)
-    ctx = Ctx(b, env, outdir, seed)
+def _build_profile(b, env, outdir, tier, seed, prof, args, only):
+    work = os.path.join(outdir, "gen_" + prof)
+    os.makedirs(work, exist_ok=True)
+    ctx = Ctx(b, env, work, seed)
     host_files(ctx)
     states, skipped = [], []
-    vt = variant_table(tier)
-    for prof, args in PROFILES:
-        base = os.path.join(outdir, "base_%s.img" % prof)
-        if only and not any(o.startswith(prof + "/") for o in only):
+    base = os.path.join(outdir, "base_%s.img" % prof)
+    make_base(ctx, prof, args, base)
+    base_digest = hashlib.sha256(open(base, "rb").read()).digest()
+    for name, kind, applies, fn in variant_table(tier):
+        sid = "%s/%s" % (prof, name)
+        if not applies(prof) or (only and sid not in only):
             continue
-        make_base(ctx, prof, args, base)
-        for name, kind, applies, fn in vt:
-            sid = "%s/%s" % (prof, name)
-            if not applies(prof) or (only and sid not in only):
-                continue
-            dst = os.path.join(outdir, "%s__%s.img" % (prof, name))
-            sparse_copy(base, dst)
-            try:
-                fn(ctx, dst, Geom(dst))
-            except Skip:
-                os.unlink(dst); skipped.append((sid, "recipe not applicable")); continue
-            if name != "clean" and hashlib.sha256(open(dst, "rb").read()).digest() == hashlib.sha256(open(base, "rb").read()).digest():
-                os.unlink(dst); skipped.append((sid, "recipe left the image unchanged")); continue
-            states.append(State(sid, prof, name, dst, "", kind))
-        # undo state: tune2fs -z on a copy of the clean image; the undo file is shared by every `e2undo -n` invocation
-        sid = "%s/post_tune_undo" % prof
-        if not only or sid in only or True:
-            dst = os.path.join(outdir, "%s__post_tune_undo.img" % prof)
-            undo = os.path.join(outdir, "%s.undo" % prof)
-            sparse_copy(base, dst)
-            if os.path.exists(undo):
-                os.unlink(undo)
-            ctx.run([os.path.join(b, "misc", "tune2fs"), "-z", undo, "-L", "relabelled", "-c", "25", "-e", "remount-ro", dst], ok=(0,))
-            if not os.path.exists(undo) or os.path.getsize(undo) == 0:
-                raise GenError("tune2fs -z wrote no undo file for %s" % prof)
-            if not only or sid in only:
-                states.append(State(sid, prof, "post_tune_undo", dst, undo, "undo"))
-            # every other state of this profile uses the same undo file (e2undo checks the superblock against it)
-            states = [s._replace(undo=undo) if s.profile == prof else s for s in states]
+        dst = os.path.join(outdir, "%s__%s.img" % (prof, name))
+        sparse_copy(base, dst)
+        try:
+            fn(ctx, dst, Geom(dst))
+        except Skip:
+            os.unlink(dst); skipped.append((sid, "recipe not applicable")); continue
+        if name != "clean" and hashlib.sha256(open(dst, "rb").read()).digest() == base_digest:
+            os.unlink(dst); skipped.append((sid, "recipe left the image unchanged")); continue
+        states.append(State(sid, prof, name, dst, "", kind))
+    # undo state: tune2fs -z on a copy of the clean image; the undo file is shared by every `e2undo` invocation of the
+    # profile (e2undo checks the superblock against it; -f overrides)
+    sid = "%s/post_tune_undo" % prof
+    dst = os.path.join(outdir, "%s__post_tune_undo.img" % prof)
+    undo = os.path.join(outdir, "%s.undo" % prof)
+    sparse_copy(base, dst)
+    if os.path.exists(undo):
+        os.unlink(undo)
+    ctx.run([os.path.join(b, "misc", "tune2fs"), "-z", undo, "-L", "relabelled", "-c", "25", "-e", "remount-ro", dst], ok=(0,))
+    if not os.path.exists(undo) or os.path.getsize(undo) == 0:
+        raise GenError("tune2fs -z wrote no undo file for %s" % prof)
+    if not only or sid in only:
+        states.append(State(sid, prof, "post_tune_undo", dst, undo, "undo"))
+    else:
+        os.unlink(dst)
+    return [s._replace(undo=undo) for s in states], skipped
+
+
+def build_states(b, env, outdir, tier, seed, only=None):
+    """Build every state (profiles in parallel); returns (states, skipped) -- skipped = [(id, reason)] for recipes that
+    do not apply to a profile.  `only` = list of state ids to build (replay)."""
+    import concurrent.futures as cf
+    os.makedirs(outdir, exist_ok=True)
+    profs = [(p, a) for p, a in PROFILES if not only or any(o.startswith(p + "/") for o in only)]
+    states, skipped = [], []
+    with cf.ThreadPoolExecutor(max_workers=len(profs) or 1) as ex:
+        for st, sk in ex.map(lambda pa: _build_profile(b, env, outdir, tier, seed, pa[0], pa[1], only), profs):
+            states += st; skipped += sk
     return states, skipped
